@@ -114,8 +114,10 @@ let () =
        | Ok (DStruct st, _) ->
            Printf.printf "ITEM %s INTERP %s\n" name (show_interp st.s_attrs);
            List.iteri (fun k f -> Printf.printf "ITEM %s FINTERP%d %s\n" name k (show_interp f.f_attrs)) st.s_fields
-           ; List.iteri (fun k f -> Printf.printf "ITEM %s FUSED%d lifetimes=[ %s] array_lens=[ %s]\n" name k
+           ; List.iteri (fun k f -> Printf.printf "ITEM %s FUSED%d lifetimes=[ %s] array_lens=[ %s] wraps=[ %s] own=[ %s]\n" name k
                           (String.concat "" (List.map (fun x -> esc (ostr x) ^ " ") (used_lifetimes f.f_ty)))
-                          (String.concat "" (List.map (fun x -> "[ " ^ show_tts x ^ "] ") (array_lens f.f_ty)))) st.s_fields
+                          (String.concat "" (List.map (fun x -> "[ " ^ show_tts x ^ "] ") (array_lens f.f_ty)))
+                          (String.concat "" (List.map (fun x -> "[ " ^ show_tts x ^ "] ") (wraps_list f.f_ty)))
+                          (show_tts (match f.f_ty with Ty (c, _, _, _) -> pr_cat c))) st.s_fields
        | _ -> ())
     | _ -> ())
